@@ -28,11 +28,32 @@ theorem wellLocked_snapshot_sched (c0 : Cfg) (h0 : Init c0)
     ∃ p ∈ (runSched c0 sched).1.hist, Consistent ((runSched c0 sched).1.thr i) p :=
   wellLocked_snapshot c0 _ h0 hw (reach_runSched c0 c0 Reach.refl sched) i hro hd
 
+/-- "the MDIB at MdibVersion v" is well defined: when additionally every critical section that changes content also
+    increments `mdib_version` (`Committing`), no version is ever published with two different contents -/
+theorem history_functional (c0 c : Cfg) (h0 : Init c0)
+    (hw : ∀ j, WellLocked (c0.thr j).prog ∧ NoMutate (c0.thr j).prog ∧ Committing (c0.thr j).prog) (hr : Reach c0 c) :
+    ∀ p ∈ c.hist, ∀ q ∈ c.hist, p.1 = q.1 → p = q := by
+  have hf0 : Func c0 := by
+    intro p hp q hq _
+    rw [h0.2.1] at hp hq
+    simp only [List.mem_singleton] at hp hq
+    rw [hp, hq]
+  exact (func_reach (good_init h0 (fun j => ⟨(hw j).1, (hw j).2.1⟩)) hf0 (fun j => (hw j).2.2) hr).1
+
+/-- Full statement: the completed request has observed exactly the content that the MDIB had at the MdibVersion it
+    observed — `p` is the only triple ever published with that version -/
+theorem snapshot_at_version (c0 c : Cfg) (h0 : Init c0)
+    (hw : ∀ j, WellLocked (c0.thr j).prog ∧ NoMutate (c0.thr j).prog ∧ Committing (c0.thr j).prog) (hr : Reach c0 c)
+    (i : Nat) (hro : ReadOnly (c.thr i).prog) (hd : (c.thr i).todo = []) :
+    ∃ p ∈ c.hist, Consistent (c.thr i) p ∧ ∀ q ∈ c.hist, q.1 = p.1 → q = p := by
+  obtain ⟨p, hp, hc⟩ := wellLocked_snapshot c0 c h0 (fun j => ⟨(hw j).1, (hw j).2.1⟩) hr i hro hd
+  exact ⟨p, hp, hc, fun q hq hv => history_functional c0 c h0 hw hr q hq p hp hv⟩
+
 /-- every generated program keeps the lock discipline; moving a shared read or write out of the critical section
     (or into a second one) in the code makes this fail to build -/
 theorem progs_wellLocked :
-    (∀ p ∈ Generated.readerProgs, WellLocked p ∧ ReadOnly p ∧ NoMutate p) ∧
-    (∀ p ∈ Generated.writerProgs, WellLocked p ∧ NoMutate p) := by
+    (∀ p ∈ Generated.readerProgs, WellLocked p ∧ ReadOnly p ∧ NoMutate p ∧ Committing p) ∧
+    (∀ p ∈ Generated.writerProgs, WellLocked p ∧ NoMutate p ∧ Committing p) := by
   decide
 
 /-- the four handlers by name (each request shape that was traced) -/
@@ -44,18 +65,18 @@ theorem handlers_wellLocked :
   decide
 
 /-- instance for the code as traced: any mix of the generated request and transaction programs, any number of
-    threads, any schedule — every completed request holds a consistent snapshot -/
+    threads, any schedule — every completed request holds the snapshot of the MdibVersion it states -/
 theorem generated_snapshot (c0 c : Cfg) (h0 : Init c0)
     (hp : ∀ j, (c0.thr j).prog ∈ Generated.readerProgs ++ Generated.writerProgs ++ [[]])
     (hr : Reach c0 c) (i : Nat) (hi : (c.thr i).prog ∈ Generated.readerProgs) (hd : (c.thr i).todo = []) :
-    ∃ p ∈ c.hist, Consistent (c.thr i) p := by
-  refine wellLocked_snapshot c0 c h0 (fun j => ?_) hr i (progs_wellLocked.1 _ hi).2.1 hd
+    ∃ p ∈ c.hist, Consistent (c.thr i) p ∧ ∀ q ∈ c.hist, q.1 = p.1 → q = p := by
+  refine snapshot_at_version c0 c h0 (fun j => ?_) hr i (progs_wellLocked.1 _ hi).2.1 hd
   have h := hp j
   simp only [List.mem_append, List.mem_singleton] at h
   rcases h with (h | h) | h
-  · exact ⟨(progs_wellLocked.1 _ h).1, (progs_wellLocked.1 _ h).2.2⟩
+  · exact ⟨(progs_wellLocked.1 _ h).1, (progs_wellLocked.1 _ h).2.2.1, (progs_wellLocked.1 _ h).2.2.2⟩
   · exact progs_wellLocked.2 _ h
-  · rw [h]; exact ⟨by decide, by decide⟩
+  · rw [h]; exact ⟨by decide, by decide, by decide⟩
 
 /-! ### the discipline is necessary: negative witnesses (executed by the kernel) -/
 
@@ -88,6 +109,14 @@ theorem mutation_tears :
   refine ⟨by decide, by decide, ?_⟩
   refine ⟨by decide, by decide, by decide, ?_⟩
   simp only [Consistent]
+  decide
+
+/-- a transaction that changes a state without incrementing `mdib_version` makes one version stand for two contents -/
+def prog_silentWrite : List Act := [.acq 1, .acq 0, .wrC 9, .rel 0, .rel 1]
+
+theorem silent_write_breaks_versions :
+    WellLocked prog_silentWrite ∧ ¬ Committing prog_silentWrite ∧
+    (runSched (mkCfg [prog_silentWrite] 0 0 0) [0, 0, 0, 0, 0]).1.hist = [(0, 0, 0), (0, 0, 9)] := by
   decide
 
 /-! ### non-vacuity: an initial configuration with generated programs and a run in which both threads finish -/
